@@ -67,6 +67,9 @@ type run struct {
 	syncRet    map[string]int64      // worker -> fake-clock time its last Synchronize call returned
 	syncActive map[string]bool       // workers that were inside Synchronize at the end of the previous segment
 	primary    string                // op line of the segment being judged
+	issues     map[string]int        // task (lowest op) -> times its current worker was told to execute it
+	issuedTo   map[string]string     // task (lowest op) -> that worker
+	holdThis   bool                  // the op being applied keeps woken-up workers suspended before they re-take the scheduler lock
 	pending    *failure              // a model/implementation disagreement that does not stop the history: a violation found later in the same history takes precedence (see finish)
 }
 
@@ -226,8 +229,26 @@ func startWatchdog(res *hx.Result, o hx.Opts) {
 	}()
 }
 
+// safeDump takes the state snapshot; a panic while walking the real data structures
+// (dangling pointers after a broken invariant) is a finding, not a crash of the harness.
+func (r *run) safeDump() (st *scheduler.VerifState) {
+	defer func() {
+		if p := recover(); p != nil {
+			st = nil
+			r.failf("violation", "", "C01.inv_reachable (the scheduler's own data structures are consistent)", "walking the scheduler state panicked: %v", p)
+		}
+	}()
+	return r.w.bq.VerifDumpState()
+}
+
 func (r *run) window(primary string, an string) {
 	synctest.Wait()
+	if r.w.clk.holding() && !r.holdThis {
+		// the calls of this op ran to completion while the workers woken by the previous op
+		// were still on their way back to the scheduler lock; let those continue now
+		r.w.clk.release()
+		synctest.Wait()
+	}
 	watchNote("")
 	r.steps++
 	w := r.w
@@ -239,7 +260,10 @@ func (r *run) window(primary string, an string) {
 	for _, e := range w.takeEvents() {
 		impl = append(impl, e.text)
 	}
-	st := w.bq.VerifDumpState()
+	st := r.safeDump()
+	if st == nil {
+		return
+	}
 	dump, assigned := w.canon(st)
 	hints := r.hints(assigned, an)
 	r.primary = primary
@@ -383,6 +407,7 @@ func (r *run) apply(line string) {
 	}
 	an := "sel=0 bg=- retry=0"
 	w.an.sel, w.an.bg, w.an.retry, w.an.dur = 0, -1, false, 0
+	r.holdThis = false
 	var stick []time.Duration // regpq only: worker invocation stickiness limits (seconds); not part of the Sched model
 	for _, f := range kv {
 		p := strings.SplitN(f, "=", 2)
@@ -403,6 +428,8 @@ func (r *run) apply(line string) {
 			}
 		case "retry":
 			w.an.retry = p[1] == "1"
+		case "hold": // monitor-only histories: see fakeClock.hold
+			r.holdThis = p[1] == "1" && r.noModel
 		}
 	}
 	bg := "-"
@@ -423,7 +450,14 @@ func (r *run) apply(line string) {
 	}
 	now := w.clk.now
 	a := args[2:]
+	if r.holdThis {
+		w.clk.hold()
+	}
 	switch args[1] {
+	case "mode": // monitor [slow]: the rest of the history is judged by the monitors alone (no model)
+		r.noModel = true
+		w.slowSends = len(a) > 1 && a[1] == "slow"
+		return
 	case "regpq": // comps plat sizes bgmax bgprio
 		if r.noModel {
 			comps, plat := ints(a[0]), atoi(a[1])
@@ -583,40 +617,96 @@ func uuidString(u [16]byte) string {
 func (r *run) quiesce() {
 	w := r.w
 	w.slowSends = false
+	r.holdThis = false
+	w.clk.release()
 	for len(w.sending) > 0 && r.fail == nil {
 		for c := range w.sending {
 			r.apply(fmt.Sprintf("0 sendrel %d", c))
 			break
 		}
 	}
-	for c, cl := range w.clients {
-		if !cl.done && r.fail == nil && !r.tie {
-			r.apply(fmt.Sprintf("1 cancel %d", c))
+	cancelClients := func() {
+		cs := make([]int, 0, len(w.clients))
+		for c := range w.clients {
+			cs = append(cs, c)
+		}
+		sort.Ints(cs)
+		for _, c := range cs {
+			if cl := w.clients[c]; !cl.done && r.fail == nil && !r.tie {
+				r.apply(fmt.Sprintf("1 cancel %d", c))
+			}
 		}
 	}
-	keys := make([]string, 0, len(w.syncs))
-	for k := range w.syncs {
-		keys = append(keys, k)
-	}
-	sort.Strings(keys)
-	for _, k := range keys {
-		if cl := w.syncs[k]; !cl.done && r.fail == nil && !r.tie {
-			f := strings.Split(k, "/")
-			r.apply(fmt.Sprintf("1 wcancel %s %s %s", w.pqSpec[atoi(f[0])], f[1], f[2]))
+	cancelWorkers := func() {
+		keys := make([]string, 0, len(w.syncs))
+		for k := range w.syncs {
+			keys = append(keys, k)
+		}
+		sort.Strings(keys)
+		for _, k := range keys {
+			if cl := w.syncs[k]; !cl.done && r.fail == nil && !r.tie {
+				f := strings.Split(k, "/")
+				r.apply(fmt.Sprintf("1 wcancel %s %s %s", w.pqSpec[atoi(f[0])], f[1], f[2]))
+			}
+		}
+		ids := make([]int, 0, len(w.terms))
+		for id := range w.terms {
+			ids = append(ids, id)
+		}
+		sort.Ints(ids)
+		for _, id := range ids {
+			if cl := w.terms[id]; !cl.done && r.fail == nil && !r.tie {
+				r.apply(fmt.Sprintf("1 tcancel %d", id))
+			}
 		}
 	}
-	for id, cl := range w.terms {
-		if !cl.done && r.fail == nil && !r.tie {
-			r.apply(fmt.Sprintf("1 tcancel %d", id))
+	if r.steps%2 == 0 {
+		// Workers vanish first while the clients keep listening (C02/C06): executing tasks
+		// fail when the worker timeout passes, worker-created queues are removed after the
+		// queue timeout, so every stream that is still open afterwards must belong to a task
+		// queued on a predeclared queue.
+		cancelWorkers()
+		for i := 0; i < 3 && r.fail == nil && !r.tie; i++ {
+			r.apply("200 touch")
+		}
+		if r.fail != nil || r.tie {
+			return
+		}
+		if st := r.safeDump(); st != nil {
+			for c, m := range r.streams {
+				if cl := w.clients[c]; cl == nil || cl.done || m.cancelled || m.done || m.op < 0 {
+					continue
+				}
+				for _, t := range st.Tasks {
+					for _, o := range t.Operations {
+						if opIndex(o.Name) != m.op {
+							continue
+						}
+						for _, q := range st.SizeClassQueues {
+							if q.InstanceNamePrefix == t.InstanceNamePrefix && q.Platform == t.Platform && q.SizeClass == t.SizeClass && q.MayBeRemoved {
+								r.failf("violation", timeoutProp(), "C02.eventually_done / C06.queue_timeout", "all workers have been gone for longer than the worker and queue timeouts, but the stream of client %d (operation %d, stage %d) is still open: its worker-created size class queue was never removed", c, m.op, t.Stage)
+							}
+						}
+					}
+				}
+			}
+		}
+		if r.fail != nil {
+			return
 		}
 	}
+	cancelClients()
+	cancelWorkers()
 	for i := 0; i < 6 && r.fail == nil && !r.tie; i++ {
 		r.apply("200 touch")
 	}
 	if r.fail != nil || r.tie {
 		return
 	}
-	st := w.bq.VerifDumpState()
+	st := r.safeDump()
+	if st == nil {
+		return
+	}
 	var left []string
 	for _, q := range st.SizeClassQueues {
 		if len(q.Workers) > 0 {
@@ -670,6 +760,7 @@ func (r *run) quiesce() {
 // endBubble releases every goroutine so that synctest can finish.
 func (r *run) endBubble() {
 	w := r.w
+	w.clk.release()
 	for c := range w.sending {
 		w.releaseSend(c)
 	}
@@ -688,7 +779,7 @@ func (r *run) endBubble() {
 
 func runHistory(t *testing.T, drv *hx.Driver, lines []string, quiesce bool) *run {
 	watchReset()
-	r := &run{drv: drv, prev: map[string]string{}, flags: map[string]bool{}, streams: map[int]*streamMon{}, doneTask: map[int]string{}, syncRet: map[string]int64{}}
+	r := &run{drv: drv, prev: map[string]string{}, flags: map[string]bool{}, streams: map[int]*streamMon{}, doneTask: map[int]string{}, syncRet: map[string]int64{}, issues: map[string]int{}, issuedTo: map[string]string{}}
 	synctest.Test(t, func(t *testing.T) {
 		r.w = newWorld(defaultCfg)
 		c := defaultCfg
